@@ -55,6 +55,9 @@ class Clause:
             return outcome.kind in ('return', 'yield')
         if self.when == outcome.kind:
             return True
+        if self.when == 'return_or_gen_return':
+            # tornado coroutines end with `raise gen.Return(v)`
+            return outcome.kind == 'return' or (outcome.kind == 'raise' and outcome.value.cls == 'Return')
         if self.when.startswith('raise:') and outcome.kind == 'raise':
             return outcome.value.cls == self.when[6:]
         if self.when.startswith('yield:') and outcome.kind == 'yield':
